@@ -181,7 +181,8 @@ def run(ctx):
             problems.append("set-up verdicts / modes / restart variants %s %s %s" % (seen["setup"], seen["mode"], seen["variant"]))
         if not {"Step", "Start", "Final", "Resume", "Cont"} <= seen["kinds"]:
             problems.append("kinds %s" % sorted(seen["kinds"]))
-        if law < 300 or ll < 20 or cons < 8 or cont < 300 or dom * 10 > nsteps:
+        # (the counts are of clauses that HELD; when lines were rejected the violations are the result, not the counts)
+        if not ctx.violations and (law < 300 or ll < 20 or cons < 8 or cont < 300 or dom * 10 > nsteps):
             problems.append("too few evaluated clauses: law %d, log-likelihood %d, counts %d, restart %d, outside domain %d of %d steps" % (law, ll, cons, cont, dom, nsteps))
         if problems:
             raise lib.ModelFailure("recorded traces do not cover what the check claims: " + "; ".join(problems))
